@@ -6,6 +6,12 @@ ENGINES = [
 ]
 NOT_BUILT_REASON = {}
 META = {
+    "C17": {
+        "engine": "vkit (E2)",
+        "technique": "exhaustive per-iteration and per-leaf alteration enumeration of the decomposed proof tree; exhaustive search over Z_N for a best-effort cheating prover on toy bad moduli; a few full verifications at the top level",
+        "text": "Gennaro-style components: honest accept; for EVERY iteration index a proof valid everywhere but there is rejected (8 + 80 + 8 + 2x250 cases); wrong challenge / index; seven bad toy moduli (p^2 q, pqr, pq^3, gcd(N,phi)>1, prime, p^2) x challenges x {square-free, prime-power, disjoint}: the cheating prover's per-iteration answers come from exhaustive search over Z_N with an independently written relation and the verifier's verdict must equal 'every iteration answerable'; the almost-safe-prime relation is compared with an independent re-implementation. Zero-knowledge building blocks (pedersen, addition, multiplication, exp with both OR branches, prime, is-square) on a 40-bit group: every exported big-integer leaf x {+1, -1, =0, =nil, =next leaf} must fail the structure check or change the reconstructed commitments. Top level: toy key, honest, JSON round trip, modulus N+8, altered base list (thorough: reordered/shortened list, foreign proof, every top-level field transplanted).",
+        "note": "Statistical soundness itself (2^-80) is out of reach; toy sizes stand for real ones at component level; the top level uses 48-bit primes (a full verification costs seconds).",
+    },
     "C18": {
         "engine": "vkit (E2)",
         "technique": "exhaustive enumeration of integer byte shapes x encodings, message types x optional parts x encodings, key documents x single-element mutations x readers, prior file states x umasks x overwrite flag",
